@@ -1387,6 +1387,9 @@ func (st *Runtime) evaluateArgs(fnType reflect.Type, args CallArgs, pipedArg *re
 			return nil, fmt.Errorf("piped first argument for %s is not a valid value", fnType)
 		}
 		if !(*pipedArg).Type().AssignableTo(in) {
+			if !(*pipedArg).Type().ConvertibleTo(in) {
+				return nil, fmt.Errorf("piped first argument for %s is of type %s, which can't be used as %s", fnType, (*pipedArg).Type(), in)
+			}
 			*pipedArg = (*pipedArg).Convert(in)
 		}
 		argValues[slot] = *pipedArg
@@ -1407,6 +1410,9 @@ func (st *Runtime) evaluateArgs(fnType reflect.Type, args CallArgs, pipedArg *re
 			return nil, fmt.Errorf("argument for position %d in %s is not a valid value", slot, fnType)
 		}
 		if !term.Type().AssignableTo(in) {
+			if !term.Type().ConvertibleTo(in) {
+				return nil, fmt.Errorf("argument for position %d in %s is of type %s, which can't be used as %s", slot, fnType, term.Type(), in)
+			}
 			term = term.Convert(in)
 		}
 		argValues[slot] = term
@@ -1427,6 +1433,9 @@ func (st *Runtime) evaluateArgs(fnType reflect.Type, args CallArgs, pipedArg *re
 				return nil, fmt.Errorf("argument for position %d in %s is not a valid value", slot, fnType)
 			}
 			if !term.Type().AssignableTo(in) {
+				if !term.Type().ConvertibleTo(in) {
+					return nil, fmt.Errorf("argument for position %d in %s is of type %s, which can't be used as %s", slot, fnType, term.Type(), in)
+				}
 				term = term.Convert(in)
 			}
 			argValues[slot] = term
